@@ -16,7 +16,7 @@ EXPLANATION = ('Relational (two-run) symbolic execution: the real solver is run 
                'wave-speed table and the burn times are related by the symmetry, on every pair of feasible paths.')
 BOUNDS = ['gamma pairs from a finite rational set; one evaluation point for burn times; rotation given by (c, s) with c^2+s^2=1']
 OUTSIDE = ['equality of the two bisect roots is derived from equality of the root functions + uniqueness of the root (stated assumption)',
-           'general-EOS solver (numerical tables)']
+           "general-EOS solver: mirror only, on small tables (problem and mirrored problem on one path, second star-pressure call returns the first root after its own function is proved zero there): general-EOS Riemann driver (RiemannGenEOS.driver): run as coded with scipy.integrate.ode replaced by its contract (ideal-gas flag: the closed-form integral curve, proved to satisfy the real right-hand side drdp_dudp by the `geos.ode_contract' obligations), bisect by f(x*)=0, tables of 2 (rarefaction) / 4 (shock) nodes, empty internal grid; wave ordering and monotone fan knots (np.interp's precondition) are assumed; one obligation per wave pattern and per pair of table intervals containing p*; p* within one table step of an initial pressure (star-state lookup clamps to the last node) and the JWL flag are outside"]
 ASSUMPTIONS = ['the star-pressure equation has a unique root in the bracket (monotone wave curves)']
 META = {
     'level_text': ('Bounded relational symbolic check on the real code: mirrored and Galilean-boosted Riemann data, rotated / '
@@ -247,6 +247,9 @@ def obligations(tier):
     for gl, gr in pairs:
         obs.append(RiemannSym('mirror', gl, gr))
         obs.append(RiemannSym('boost', gl, gr))
+    # general-EOS driver: mirrored problem on the same path (tables by the ODE contract, small tables)
+    from . import geos
+    obs += geos.obligations('C09', tier, patterns=('RCR',) if tier == 'quick' else ('RCR', 'RCS', 'SCR', 'SCS'), mirror=True)
     # Kenamond 1: any rotation, reflection and translation; Kenamond 3 / DSD: rotations and reflections about the
     # origin (obstacle / tube centre); Kenamond 2: motions that fix the detonator axis (last coordinate)
     deep = (tier == 'thorough')
